@@ -10,6 +10,6 @@ CONSTANTS
   Driver = FALSE
   KeepHist = TRUE
 SPECIFICATION Spec
-VIEW View
-INVARIANTS CxPOk CxNoStrand PerWindow SizeBound
+VIEW ViewL
+INVARIANTS WitRelease WitTtl WitFull WitBuffered WitTtlVsSignal WitSkipGone
 CHECK_DEADLOCK FALSE
